@@ -36,6 +36,10 @@ def t3(rep, tier, seed):
         os.makedirs(adir)
         for files in [[missing], [good, missing], [missing, good], [small, good, missing], [adir], [good, adir]]:
             cases.append(("missing-or-unreadable-input", ["--icsv", "--ojson", "cat"] + files, None, None))
+        # a read that fails (here: the path is a directory) in every reader, alone and after a good file of that format
+        for fmt in ["csv", "csvlite", "tsv", "json", "jsonl", "dkvp", "nidx", "xtab", "pprint", "markdown", "usv", "asv", "yaml"]:
+            cases.append(("unreadable-input-per-format", ["--i" + fmt, "--ojson", "cat", adir], None, None))
+            cases.append(("unreadable-input-per-format", ["--i" + fmt, "--ojson", "head", "-n", "1", "then", "put", "$z = 1", adir], None, None))
         cases.append(("missing-or-unreadable-input", ["--icsv", "--ojson", "--from", missing, "cat"], None, None))
         cases.append(("missing-or-unreadable-input", ["--icsv", "--ojson", "join", "-j", "a", "-f", missing, good], None, None))
         cases.append(("failing-prepipe", ["--prepipe", "gunzip", "--icsv", "--ojson", "cat", good], None, None))
@@ -74,6 +78,10 @@ def t3(rep, tier, seed):
         open(het, "w").write("\n".join(['{"a":1,"b":2}'] * 700 + ['{"a":1,"c":3}'] + ['{"a":1,"b":2}'] * 3) + "\n")
         cases.append(("inexpressible-output", ["--ijson", "--ocsv", "cat", het], None, None))
         cases.append(("inexpressible-output", ["--ijson", "--otsv", "cat", het], None, None))
+        # ... the same through a redirected emit / tee (the redirect's own writer fails); repeated: the error must never be lost
+        for k in range(4):
+            cases.append(("inexpressible-redirected-output", ["--ijson", "--ocsv", "put", "-q", 'emit > "' + os.path.join(base, "r%d.csv" % k) + '", $*', het], None, None))
+            cases.append(("inexpressible-redirected-output", ["--ijson", "--otsv", "put", "-q", 'tee > "' + os.path.join(base, "t%d.tsv" % k) + '", $*', het], None, None))
         # 5. stdout that cannot be written
         for argv in [["--icsv", "--ojson", "cat", good], ["--icsv", "--ocsv", "tac", good], ["--icsv", "--opprint", "cat", small],
                      ["--icsv", "--ojson", "put", "-q", "print $a", good], ["-n", "put", "end{print 1}"], ["--icsv", "--oxtab", "head", "-n", "1", good]]:
@@ -105,7 +113,7 @@ def t3(rep, tier, seed):
             seen = {}
             for c in cases:
                 seen[c[0]] = seen.get(c[0], 0) + 1
-                if seen[c[0]] <= 8:
+                if seen[c[0]] <= (26 if c[0] == "unreadable-input-per-format" else 8):
                     keep.append(c)
             cases = keep
         settings = [(mlr, [], {}), (mlr, ["--records-per-batch", "1"], {}), (mlrv, ["--records-per-batch", "7"], {"MLR_VERIF_PERTURB": str(seed)})]
